@@ -36,7 +36,7 @@ def obligations(tier):
            timeout=280 if q else 900, parts=16),
         Ob('recognise_las', 'ch', 'LAS 1.2/2.0, 2..4 curves, wrap, indentation 0..2, comments, blank lines, 8 cell vocab offsets',
            det + ['bin_file_type._las/_lasv12/_lasv20', 'RE_LAS_VERSION_LINE'], harness='C20_filetype', func='recognise_las', timeout=280 if q else 900, parts=16),
-        Ob('recognise_bit_and_dat', 'ch', 'BIT: 1..3 channels, 1..3 frames, symbolic data byte, either direction; DAT: 4 declaration orders, 4 headers, 1..2 rows, blank/tab, both date spellings',
+        Ob('recognise_bit_and_dat', 'ch', 'BIT: 1..3 channels, 1..3 frames, symbolic data byte, either direction; DAT: 4 declaration orders, 4 headers, 1..2 rows, blank/tab, both date spellings, plain or with 40 / 150 further channels (2 KB / 7 KB before the first data row) or 400 further rows',
            det + ['bin_file_type._bit/_tif_initial/_tif_third_word', 'bin_file_type._dat', 'DAT.DAT_parser.can_parse_file'], harness='C20_filetype', func='recognise_bit_dat',
            timeout=280 if q else 900, parts=8),
         Ob('totality_signature_prefixes', 'ch', '14 signature / TIF / SUL prefixes + 4 fully symbolic bytes + 0/1/7/40 filler bytes',
